@@ -104,7 +104,7 @@ def run(ch, build):
     # command's reply (a stray that is in the socket while the accepted reply is being used); many exchanges, because what
     # such a stray can disturb depends on scheduling
     uscns = []
-    for k in range(4 if ch.quick() else 16):
+    for k in range(16 if ch.quick() else 64):
         pool = [c for c in hist.command_pool(rng, False) if c["name"] in ("getsystemguid", "authcaps", "getdeviceid", "getchassisstatus", "ciphersuites", "getsdrrepoinfo")]
         steps = [{"op": "cmd", "conn": "sessionless", "cmd": pool[0], "script": ["ok"]}]
         for j in range(60):
